@@ -9,7 +9,11 @@ LEVEL = "proof"
 def programs(ctx):
     specs = [("tuple", "u8", False, ""), ("named", "u8", False, ""), ("tuple", "(u8, u8)", False, ""), ("named", "[u8; 2]", False, ""),
              ("tuple", "W<u8>", True, ""), ("named", "Option<u8>", True, "T: Copy"), ("tuple", "u8", True, "T: Copy + core::fmt::Debug"),
-             ("tuple", "&'static u8", False, ""), ("named", "&'static u8", False, "")]
+             ("tuple", "&'static u8", False, ""), ("named", "&'static u8", False, ""),
+             # the type's own where-clause together with bound(..) arguments reaching Deref / DerefMut: both must end up on the impls
+             ("tuple", "u8", True, "T: Copy", "Deref, DerefMut, bound(T: core::fmt::Debug)"),
+             ("named", "Option<u8>", True, "T: Copy + core::fmt::Debug", "Deref(bound(T: Clone, ..)), DerefMut(bound(T: Clone))"),
+             ("tuple", "W<u8>", True, "T: Copy", "Deref(bound()), DerefMut, bound(..)")]
     return [fam2.c18_prog("p_%04d" % i, *s) for i, s in enumerate(specs)]
 
 
